@@ -95,9 +95,10 @@ static ares_status_t ares_search_next(ares_channel_t      *channel,
   status = ares_send_nolock(channel, NULL, 0, squery->dnsrec, search_callback,
                             squery, NULL);
 
-  if (status != ARES_EFORMERR) {
-    *skip_cleanup = ARES_TRUE;
-  }
+  /* ares_send_nolock() reports every failure, including ARES_EFORMERR for a
+   * candidate name it cannot serialise, through search_callback(), which has
+   * then already ended the search and released squery. */
+  *skip_cleanup = ARES_TRUE;
 
   return status;
 }
